@@ -395,7 +395,7 @@ class Exec:
         self.solver_time += dt
         if r == z3.unsat:
             self.vcs.append(VC(full, 'discharged', 'z3', dt, path=list(self.trace), detail=detail,
-                               smt2=self.solver.to_smt2() if self.dump_smt2 else None))
+                               smt2=self.solver.to_smt2() if self._want_smt2(full) else None))
         elif r == z3.sat:
             self.vcs.append(VC(full, 'refuted', 'z3', dt, model=self.solver.model(), path=list(self.trace),
                                detail=detail))
@@ -403,6 +403,19 @@ class Exec:
             smt2 = self.solver.to_smt2()
             self.vcs.append(VC(full, 'unknown', 'z3', dt, smt2=smt2, path=list(self.trace), detail=detail))
         self.solver.pop()
+
+    def _want_smt2(self, full):
+        """thorough tier: dump the query for the second solver -- every one (contract units) or the first instance of
+        each obligation name (scenario units, where one name has thousands of path instances)"""
+        d = self.dump_smt2
+        if d is False or d is None:
+            return False
+        if d is True:
+            return True
+        if full in d:
+            return False
+        d.add(full)
+        return True
 
     # ---- exceptions ----------------------------------------------------------------------------------------
     def raise_builtin(self, cls, msg=""):
@@ -1419,12 +1432,15 @@ class Exec:
         if isinstance(it, SBytes) and not isinstance(it.length(), int):
             return loops.symbolic_for(self, node, it, fr)
         items = self.iterate(it)
+        # iteration over a dict (view): python raises RuntimeError at the next step when the size changed meanwhile
+        sized = it if type(it).__name__ in ("dict", "dict_items", "dict_keys", "dict_values") else None
+        n0 = len(sized) if sized is not None else None
         if self.verify_key is not None and fr.info is not None and fr.info.key == self.verify_key:
             c = self.contracts.get(self.verify_key)
             if c is not None:
                 ordinal = loops.loops_in_source_order(fr.info.node).index(node)
                 if "state" in c.loops.get(ordinal, {}):
-                    return loops.concrete_for(self, node, items, fr, c.loops[ordinal], ordinal)
+                    return loops.concrete_for(self, node, items, fr, c.loops[ordinal], ordinal, sized=sized)
         broke = False
         for item in items:
             self.assign(node.target, item, fr)
@@ -1434,7 +1450,9 @@ class Exec:
                 broke = True
                 break
             except ContinueSig:
-                continue
+                pass
+            if sized is not None and len(sized) != n0:
+                raise PyRaise(RuntimeError("dictionary changed size during iteration"))
         if not broke:
             self.exec_block(node.orelse, fr)
 
